@@ -1,6 +1,7 @@
 package core
 
 import (
+	"os"
 	"sort"
 	"fmt"
 	"go/token"
@@ -324,6 +325,9 @@ func bitsLenWidth(name string) int {
 // state per possible result k, each knowing 2^(k-1) <= arg < 2^k.
 func (ex *Exec) forkIntrinsic(s *astate, fr *aframe, x *ssa.Call) []*astate {
 	name := CalleeName(&x.Call)
+	if name == "bytes.IndexByte" && len(x.Call.Args) == 2 {
+		return ex.forkIndexByte(s, fr, x)
+	}
 	if bitsLenWidth(name) == 0 || len(x.Call.Args) != 1 {
 		return nil
 	}
@@ -928,7 +932,7 @@ func constSliceOf(g *ssa.Global) ([]ssa.Value, bool) {
 								}
 							case *ssa.Call, *ssa.Go, *ssa.Defer:
 								// handed to a callee: only builtins (len, cap) and known readers
-								if c, isC := y.(*ssa.Call); !isC || !isBuiltinCall(c, "len", "cap") {
+								if c, isC := y.(*ssa.Call); !isC || !(isBuiltinCall(c, "len", "cap") || pureSliceReader(CalleeName(&c.Call))) {
 									return bad()
 								}
 							}
@@ -992,6 +996,16 @@ func constElem(v ssa.Value) (ssa.Value, bool) {
 			return nil, false
 		}
 	}
+}
+
+// pureSliceReader: standard-library functions that only read the slices they are handed.
+func pureSliceReader(name string) bool {
+	for _, p := range []string{"bytes.Index", "bytes.LastIndex", "bytes.Contains", "bytes.Equal", "bytes.Compare", "bytes.HasPrefix", "bytes.HasSuffix", "bytes.Count", "slices.Index", "slices.Contains", "encoding/hex.EncodeToString", "encoding/binary.bigEndian.Uint", "encoding/binary.littleEndian.Uint"} {
+		if strings.HasPrefix(name, p) {
+			return true
+		}
+	}
+	return false
 }
 
 func isBuiltinCall(c *ssa.Call, names ...string) bool {
@@ -1197,5 +1211,122 @@ func (ex *Exec) forkTableIndex(s *astate, fr *aframe, x *ssa.IndexAddr) []*astat
 		cf.pc++
 		out = append(out, c)
 	}
+	return out
+}
+
+// assumeEqParts records val == kc on st: every run of bits that is a field of one source gets its share
+// of the constant; constant bits of val have to agree with kc (false: the equality cannot hold).
+// names lists the fields that were pinned.
+func (st *astate) assumeEqParts(val BitVec, kc uint64) (feasible bool, names []string, shares []uint64) {
+	for i := 0; i < len(val); {
+		x := val[i]
+		want := (kc >> uint(i)) & 1
+		switch x.Kind {
+		case BZero:
+			if want != 0 {
+				return false, nil, nil
+			}
+			i++
+		case BOne:
+			if want != 1 {
+				return false, nil, nil
+			}
+			i++
+		case BSrc:
+			if x.More != "" || x.Neg {
+				return true, nil, nil // not a shape this records; nothing learnt
+			}
+			n := 0
+			for i+n < len(val) && val[i+n].Kind == BSrc && val[i+n].More == "" && !val[i+n].Neg && val[i+n].Src == x.Src && val[i+n].Idx == x.Idx+n {
+				n++
+			}
+			name, okN := plainSource(append(append(BitVec(nil), val[i:i+n]...), Bit{Kind: BZero}))
+			if !okN || n >= 63 {
+				return true, nil, nil
+			}
+			names = append(names, name)
+			shares = append(shares, (kc>>uint(i))&(1<<uint(n)-1))
+			i += n
+		default:
+			return true, nil, nil
+		}
+	}
+	for i, n := range names {
+		if f, has := st.facts[n]; has && (shares[i] < f[0] || shares[i] > f[1]) {
+			return false, nil, nil
+		}
+		for _, e := range st.excl[n] {
+			if uint64(e) == shares[i] {
+				return false, nil, nil
+			}
+		}
+	}
+	for i, n := range names {
+		st.setRange(n, false, int64(shares[i]), int64(shares[i]))
+	}
+	return true, names, shares
+}
+
+// forkIndexByte: bytes.IndexByte(table, c) over a table whose octets are all known (a constant
+// table) and a symbolic c: one state per distinct octet of the table (c is that octet, the result its
+// first index) and one for "not in the table" (-1), as a loop over the table comparing c would give.
+func (ex *Exec) forkIndexByte(s *astate, fr *aframe, x *ssa.Call) []*astate {
+	tab := ex.val(s, fr, x.Call.Args[0])
+	c := ex.val(s, fr, x.Call.Args[1])
+	if os.Getenv("VERIF_DEBUG_IB") != "" {
+		fmt.Printf("DEBUG IndexByte tab=%s{K=%d lo=%d len=%d} c=%s\n", argName(tab), tab.K, tab.Lo, tab.Len, c)
+	}
+	if tab.K != ASlice || tab.Lo < 0 || tab.Len < 0 || tab.Len > 64 || c.K != AInt || hasMixBits(c.Bits) {
+		return nil
+	}
+	if _, isK := c.ConstVal(); isK {
+		return nil
+	}
+	var vals []uint64
+	first := map[uint64]int{}
+	for i := 0; i < tab.Len; i++ {
+		cell, has := s.mem.cells[fmt.Sprintf("%s[%d]", tab.Path, tab.Lo+i)]
+		if !has {
+			return nil
+		}
+		k, isK := cell.ConstVal()
+		if !isK {
+			return nil
+		}
+		if _, seen := first[k]; !seen {
+			first[k] = i
+			vals = append(vals, k)
+		}
+	}
+	w := widthOf(x.Type())
+	if w == 0 {
+		return nil
+	}
+	var out []*astate
+	other := s.clone()
+	single := ""
+	for _, v := range vals {
+		st := s.clone()
+		ok, names, shares := st.assumeEqParts(c.Bits, v)
+		if !ok {
+			continue
+		}
+		if names == nil {
+			return nil // the comparison is not of a recordable shape: leave the call opaque
+		}
+		if len(names) == 1 {
+			single = names[0]
+			other.exclude(names[0], int64(shares[0]))
+		}
+		sf := st.frames[len(st.frames)-1]
+		sf.env[x] = AVal{K: AInt, Bits: constBits(uint64(first[v]), w)}
+		sf.pc++
+		out = append(out, st)
+	}
+	_ = single
+	of := other.frames[len(other.frames)-1]
+	of.env[x] = AVal{K: AInt, Bits: constBits(truncTo(^uint64(0), w), w)}
+	of.pc++
+	out = append(out, other)
 	return out
 }
